@@ -1006,7 +1006,9 @@ class Wrapc(util.WrapperMixin):
             sgroup = arg_typemap.sgroup
 
             if arg_typemap.base == "vector":
-                fmt_arg.cxx_T = arg.template_arguments[0].typemap.name
+                targ_typemap = arg.template_arguments[0].typemap
+                fmt_arg.cxx_T = targ_typemap.cxx_type
+                fmt_arg.flat_T = targ_typemap.flat_name
 
             self.header_impl.add_typemap_list(arg_typemap.impl_header)
                     
